@@ -17,6 +17,7 @@ import (
 	"math/big"
 	"strings"
 	"time"
+	"verif/harness/obs"
 
 	"github.com/veraison/psatoken"
 
@@ -176,8 +177,8 @@ func c02Malformed(c *mon.Ctx, A *signedTok, name string, pk crypto.PublicKey) {
 }
 
 func runC02(c *mon.Ctx) {
-	c.Rule("for each of ES256/384/512, EdDSA, PS256/384/512 with fresh keys x valid claims-sets of both profiles and a P2 extension, the token produced by the real ValidateAndSign is (1) accepted unmodified under the signer's key (positive control), then attacked - each mutant once through a fresh DecodeEvidenceFromCOSE and once through ONE REUSED Evidence object that has just decoded and verified the original token - with: every single-bit flip; every truncation; 1-8 trailing bytes; splices of protected/payload/signature between two tokens (same key/other payload, other key, other algorithm); signature := random bytes (same / other length), zeros, empty, signature of another message; 2-8 random byte substitutions, random insertions and deletions; algorithm moved to the unprotected header with a signature that is valid for that layout; empty protected header; protected header without label 1; nil payload with a signature valid over the empty payload; signature := well-formed DER ECDSA signatures (of nothing, of random integers, of another message); signature := the same integers in another octet form (a token is signed until r, s or the RSA integer starts with a zero octet, which is then dropped; zero octets prepended / appended); signature := the same octets rearranged (whole / each half reversed, halves swapped, complemented, bit-reversed, rotated, one half doubled); tokens re-signed by another key that bring their own 'proof' along in the unprotected header (self-issued certificate as x5chain / x5bag, key id) or carry a keyless hash-as-signature with the well-known TF-M short-circuit key id, verified under the signer's key, nil and an empty key list; tokens with foreign payload / random signature / other key whose unprotected header is decorated with content type, key id, IV, CWT claims, countersignature slots or unknown labels (12 variants), and the same content-type parameter inside the protected header with the old signature; B's payload under a protected header that additionally carries a well-formed crit parameter (three variants) with A's / random / constant signatures; an Evidence holding a modified token whose by-value copy then decodes the genuine one; the bare claims-set behind tags 601 / 602 / 61 / 55799 / 24 and untagged; a modified token decoded from a buffer that the caller then overwrites in place with the genuine token before Verify; the payload re-serialised into other bytes of the same meaning (tags in front, non-minimal / indefinite map head, other key order, extra unknown key, bstr-wrapped) with the original protected header and signature; the protected header re-serialised into other bytes of the same meaning (non-minimal label / value / map head, indefinite map, extra label, tag) with the original payload and signature; and verification under every other key (same algorithm, other curve/type, nil, non-key values) and under malformed key objects of the right Go type (empty / short / long Ed25519 key, zero-value and nil ECDSA / RSA keys; a panic below the library is counted, a nil error is a violation). Oracle: decode+Verify may only succeed if the independent reader finds payload, protected-header content and signature byte-identical to the signed token and the key is the signer's (NO-VERDICT, counted), or if the independent stdlib verifier itself finds the signature valid for that content and key; Verify must never succeed without protected alg / payload / signature. distinct_nontrivial = distinct (algorithm, profile, mutation class, position bucket) signatures")
-	if err := extprof.Register(extprof.ExtP2Name); err != nil {
+	c.Rule("for each of ES256/384/512, EdDSA, PS256/384/512 with fresh keys x valid claims-sets of both profiles and a P2 extension, the token produced by the real ValidateAndSign is (1) accepted unmodified under the signer's key (positive control), then attacked - each mutant once through a fresh DecodeEvidenceFromCOSE and once through ONE REUSED Evidence object that has just decoded and verified the original token - with: every single-bit flip; every truncation; 1-8 trailing bytes; splices of protected/payload/signature between two tokens (same key/other payload, other key, other algorithm); signature := random bytes (same / other length), zeros, empty, signature of another message; 2-8 random byte substitutions, random insertions and deletions; algorithm moved to the unprotected header with a signature that is valid for that layout; empty protected header; protected header without label 1; nil payload with a signature valid over the empty payload; signature := well-formed DER ECDSA signatures (of nothing, of random integers, of another message); signature := the same integers in another octet form (a token is signed until r, s or the RSA integer starts with a zero octet, which is then dropped; zero octets prepended / appended); signature := the same octets rearranged (whole / each half reversed, halves swapped, complemented, bit-reversed, rotated, one half doubled); tokens re-signed by another key that bring their own 'proof' along in the unprotected header (self-issued certificate as x5chain / x5bag, key id) or carry a keyless hash-as-signature with the well-known TF-M short-circuit key id, verified under the signer's key, nil and an empty key list; tokens with foreign payload / random signature / other key whose unprotected header is decorated with content type, key id, IV, CWT claims, countersignature slots or unknown labels (12 variants), and the same content-type parameter inside the protected header with the old signature; B's payload under a protected header that additionally carries a well-formed crit parameter (three variants) with A's / random / constant signatures; an Evidence holding a modified token whose by-value copy then decodes the genuine one; the bare claims-set behind tags 601 / 602 / 61 / 55799 / 24 and untagged; a modified token decoded from a buffer that the caller then overwrites in place with the genuine token before Verify; the payload re-serialised into other bytes of the same meaning (tags in front, non-minimal / indefinite map head, other key order, extra unknown key, bstr-wrapped) with the original protected header and signature; the protected header re-serialised into other bytes of the same meaning (non-minimal label / value / map head, indefinite map, extra label, tag) with the original payload and signature; and verification under every other key (same algorithm, other curve/type, nil, non-key values) and under malformed key objects of the right Go type (empty / short / long Ed25519 key, zero-value and nil ECDSA / RSA keys; a panic below the library is counted, a nil error is a violation). Oracle: decode+Verify may only succeed if the independent reader finds payload, protected-header content and signature byte-identical to the signed token and the key is the signer's (NO-VERDICT, counted), or if the independent stdlib verifier itself finds the signature valid for that content and key; Verify must never succeed without protected alg / payload / signature. KEY SEQUENCES on ONE decoded Evidence: for every wrong key of the matrix - signer's key (must verify), the wrong key (must fail), the same wrong key again (must fail), the signer's key again (must verify). COMPOSITE: a token forged with another key whose claims-set (a registered extension that decodes a sub-attester token inside its own decoder) carries the genuine token must verify under the forger's key only. distinct_nontrivial = distinct (algorithm, profile, mutation class, position bucket) signatures")
+	if err := extprof.Register(extprof.ExtP2Name, extprof.ExtSubName); err != nil {
 		c.Violation("harness/register", err.Error(), nil)
 		return
 	}
@@ -669,6 +670,38 @@ func runC02(c *mon.Ctx) {
 			}
 			c02Judge(c, "protected-reserialised:"+r.name, A, sign1Bytes(r.prot, nil, A.env.Payload, A.env.Signature), k.Pub, true, map[string]any{"protected_hex": mon.Hex(r.prot)})
 			c.Sig(base + "|protected-reserialised|" + r.name)
+		}
+		// (7b) composite attestation: a FORGED outer token (signed by another key) whose
+		// claims-set carries the GENUINE token in a sub-attester claim; the claims type of
+		// that registered extension decodes the inner token while the outer decode is
+		// still in progress (seeded fault C02-v: a package-level staging envelope). The
+		// outer Evidence must verify under the forger's key only.
+		if a2 := g.Valid(2); true {
+			a2.Canon, a2.Profile = extprof.ExtSubName, model.SP(extprof.ExtSubName)
+			outer := extprof.ExtSubProfile{}.GetClaims().(*extprof.ExtSubClaims)
+			if err := obs.SetterApply(outer, a2); err == nil {
+				inner := append([]byte{}, A.tok...)
+				outer.Sub = &inner
+				if forged, serr := (&psatoken.Evidence{Claims: outer}).Sign(k2.Signer); serr == nil {
+					ev, derr := psatoken.DecodeEvidenceFromCOSE(forged)
+					c.Eval()
+					c.Count("composite-forgeries")
+					if derr != nil {
+						c.Violation("C02/harness/composite-token-undecodable", "the composite token does not decode: "+derr.Error(), map[string]any{"alg": alg})
+					} else {
+						if ev.Verify(k.Pub) == nil {
+							c.Violation("C02/different-key-verified/composite-outer-token/"+alg, "a token signed by another key, carrying the genuine token in a sub-attester claim, verifies under the GENUINE signer's key", map[string]any{"alg": alg, "forged_hex": mon.Hex(forged)})
+						}
+						if verr := ev.Verify(k2.Pub); verr != nil {
+							c.Violation("C02/control-rejected/composite-outer-token", "the composite token does not verify under the key that signed it: "+verr.Error(), map[string]any{"alg": alg})
+						}
+						if sc, ok := ev.Claims.(*extprof.ExtSubClaims); !ok || sc.SubEvidence == nil || sc.SubEvidence.Verify(k.Pub) != nil {
+							c.Violation("C02/control-rejected/composite-inner-token", "the genuine inner token does not verify under its signer's key", map[string]any{"alg": alg})
+						}
+					}
+				}
+			}
+			c.Sig(base + "|composite")
 		}
 		// (8) wrong-key matrix on the unmodified token
 		var others []struct {
